@@ -134,8 +134,8 @@ def unbalanced_quote_in_comment(text):
 
 
 def only_blanks_after_comment_lines_removed(text, opts):
-    """KF-C10-5: is format(format(text)) obtained from format(text) by deleting only whitespace tokens that directly follow the line
-    break of a single-line comment?"""
+    """KF-C10-5: is format(format(text)) obtained from format(text) by deleting only whitespace tokens that directly follow a comment
+    token (the line break after the comment was absorbed into the Comment group and turned into a blank)?"""
     try:
         out1 = sqlparse.format(text, **opts)
         out2 = sqlparse.format(out1, **opts)
@@ -144,7 +144,7 @@ def only_blanks_after_comment_lines_removed(text, opts):
     toks = oracles.lex(out1)
     deletable = set()
     for i, (tt, v) in enumerate(toks):
-        if tt in T.Comment.Single and v.endswith(('\n', '\r')):
+        if tt in T.Comment:
             j = i + 1
             while j < len(toks) and toks[j][0] in T.Whitespace:
                 deletable.add(j)
